@@ -49,7 +49,32 @@ def paired_cfgs(tier, seed):
         else:
             out.append((cn, dict(base, objective="plateau", optimal_value=1.0, termination_error_value=1.0, iters=10, seed=seed * 50 + 20)))
         out.append((cn, dict(base, objective="plateau", no_increase_num=2, iters=12, seed=seed * 50 + 21)))
+        # "otherwise identical arguments": every entry of the operator pools of the plain (not self-configuring) optimizers
+        if cn in ("DifferentialEvolution", "jDE"):
+            for j, m in enumerate(("best_1", "rand_1", "current_to_best_1", "rand_to_best1", "best_2", "rand_2")):
+                out.append((cn, dict(base, objective="asym", mutation=m, elitism=(j % 2 == 0), iters=5, seed=seed * 50 + 40 + j)))
+        if cn in ("GeneticAlgorithm", "GeneticProgramming"):
+            pools = pool_names(cn)
+            for j in range(max(len(v) for v in pools.values())):
+                out.append((cn, dict(base, objective="asym", iters=4, elitism=(j % 2 == 0), seed=seed * 50 + 60 + j,
+                                     **{k: v[j % len(v)] for k, v in pools.items()})))
     return out
+
+
+_POOLS = {}
+
+
+def pool_names(cn):
+    """the names in the selection / crossover / mutation pools of an optimizer class (read from a throw-away instance)"""
+    if cn not in _POOLS:
+        rec = T.Recorder(cn, {"pop_size": 8, "iters": 2, "objective": "asym"})
+        opt = T.build(cn, rec.cfg, rec)[0]
+        pop = 8
+        mine = (lambda k: k.startswith("gp_")) if cn in T.GP else (lambda k: not k.startswith("gp_"))   # the pools are shared tables
+        _POOLS[cn] = {"selection": [k for k, v in opt._selection_pool.items() if not (k.startswith("tournament") and int(v[1]) > pop - 1)],
+                      "crossover": [k for k, v in opt._crossover_pool.items() if mine(k) and int(v[1]) <= pop - 1],
+                      "mutation": [k for k in opt._mutation_pool.keys() if mine(k)]}
+    return _POOLS[cn]
 
 
 def adaptation_state(rec):
